@@ -1,5 +1,5 @@
 ---------------------------------- MODULE Cls ----------------------------------
-(* DRAFT (round 0).  What a pooled stack carries from one occupant to the next.
+(* What a pooled stack carries from one occupant to the next.
    The generator's `para` slot (yield_now.rs:72-83) lives in the pooled generator, not in the
    per-spawn CoroutineLocal, so it survives `Done::drop_coroutine` -> pool.put -> pool.get ->
    init_code.  Every blocking facility is an EventSource used through yield_with():
